@@ -210,7 +210,7 @@ def real_to_rout(outcome):
 
 
 BHEADER = ("From RV Require Import Model.LR Model.LRBytes Model.Compare Model.CompareBytes Spec.Validators "
-           "Spec.TreeCheck Spec.SpanCheck.\nOpen Scope nat_scope.\n")
+           "Spec.TreeCheck Spec.SpanCheck Proofs.RoundTrip.\nOpen Scope nat_scope.\n")
 
 
 def byte_jobs(name, items, per_file=6, extra=None):
@@ -232,7 +232,7 @@ def byte_jobs(name, items, per_file=6, extra=None):
                 n, gl_bool(fl.get("partial", 0)), gl_bool(fl.get("skipws", 1) and not has_layout),
                 gl_bool(fl.get("lm", 1)), gl_bool(has_layout)))
             body.append("Eval vm_compute in [wf_grammar_b g%d; shape_b g%d T%d]." % (n, n, n))
-            corr, idx, skipped, extras, extra_idx = [], [], 0, [], []
+            corr, idx, skipped, extras, extra_idx, mtoks = [], [], 0, [], [], []
             for i, text in enumerate(texts):
                 out = r.results.get(("LR", i))
                 m = r.matches.get(i)
@@ -247,6 +247,7 @@ def byte_jobs(name, items, per_file=6, extra=None):
                 corr.append("bout_eqb i%d_%d (bparse_auto g%d T%d i%d_%d %s cfg%d) (%s)" % (
                     n, i, n, n, n, i, gl_mtable(m), n, term))
                 idx.append(i)
+                mtoks.append("mt_ok_b i%d_%d %s" % (n, i, gl_mtable(m)))
                 if tree is not None and extra:
                     ex = extra(n, i, gl_rtree(tree), "i%d_%d" % (n, i), gl_mtable(m))
                     if ex:
@@ -254,6 +255,7 @@ def byte_jobs(name, items, per_file=6, extra=None):
                         extra_idx.append(i)
             body.append("Eval vm_compute in %s." % gl_list(corr if corr else ["true"]))
             body.append("Eval vm_compute in %s." % gl_list(extras if extras else ["true"]))
+            body.append("Eval vm_compute in %s." % gl_list(mtoks if mtoks else ["true"]))
             layout.append(dict(tag=tag, idx=idx, extra_idx=extra_idx, skipped=skipped))
         files.append(("%s_%d" % (name, k // per_file), "\n".join(body) + "\n", layout))
     outs = coq_eval_many([(f[0], f[1]) for f in files])
@@ -264,14 +266,14 @@ def byte_jobs(name, items, per_file=6, extra=None):
                 res[l["tag"]] = dict(error=out[-2500:], file=fname)
             continue
         answers = parse_bools(out)
-        if len(answers) != 3 * len(layout):
+        if len(answers) != 4 * len(layout):
             for l in layout:
                 res[l["tag"]] = dict(error="unexpected coq output (%d answers)\n%s" % (len(answers), out[-1500:]), file=fname)
             continue
         for j, l in enumerate(layout):
-            vals, corr, ext = answers[3 * j], answers[3 * j + 1], answers[3 * j + 2]
+            vals, corr, ext, mto = answers[4 * j], answers[4 * j + 1], answers[4 * j + 2], answers[4 * j + 3]
             res[l["tag"]] = dict(vals=vals, corr=dict(zip(l["idx"], corr)), extra=dict(zip(l["extra_idx"], ext)),
-                                 skipped=l["skipped"], file=fname)
+                                 mtok=dict(zip(l["idx"], mto)), skipped=l["skipped"], file=fname)
     return res
 
 
